@@ -26,6 +26,9 @@ type routeSpec struct {
 	Pfx  int      `json:"pfx"`
 	From int      `json:"from"` // 0 = the session under test, 1 = another neighbour, 2 = directly into the Loc-RIB
 	Attr rig.Attr `json:"attr"`
+	// Late: the route only arrives after the last policy replacement (the replaced policy must also govern what
+	// comes afterwards, e.g. when the table was empty at the moment of the replacement)
+	Late bool `json:"late,omitempty"`
 }
 
 type c12case struct {
@@ -129,13 +132,24 @@ func genCase(rng *rand.Rand, kind string) c12case {
 		}
 		c.Routes = keep
 	}
+	switch rng.IntN(4) {
+	case 0: // everything arrives after the replacement: the table is empty when the policy is replaced
+		for i := range c.Routes {
+			c.Routes[i].Late = true
+		}
+	case 1: // a part arrives afterwards
+		for i := range c.Routes {
+			c.Routes[i].Late = rng.IntN(2) == 0
+		}
+	}
 	return c
 }
 
 type system struct {
-	rg  *rig.Rig
-	in  *rig.In
-	out *rig.Out
+	rg    *rig.Rig
+	in    *rig.In
+	other *rig.In
+	out   *rig.Out
 }
 
 func build(c c12case, chain rig.Policy) *system {
@@ -144,23 +158,30 @@ func build(c c12case, chain rig.Policy) *system {
 	case "import":
 		s.in = s.rg.AddIn(c.Sess, chain)
 		other := s.rg.AddIn(rig.Sess{Kind: otherPeer.Kind, Peer: otherPeer.IP, PeerASN: otherPeer.ASN}, rig.AcceptAll())
-		for _, r := range c.Routes {
-			switch r.From {
-			case 0:
-				s.in.Table.AddPath(c.Universe[r.Pfx].Bio(), r.Attr.Build(s.rg.Pool))
-			case 1:
-				other.Table.AddPath(c.Universe[r.Pfx].Bio(), r.Attr.Build(s.rg.Pool))
-			default:
-				s.rg.Loc.AddPath(c.Universe[r.Pfx].Bio(), r.Attr.Build(s.rg.Pool))
-			}
-		}
+		s.other = other
+		s.load(c, false)
 	case "export":
-		for _, r := range c.Routes {
-			s.rg.Loc.AddPath(c.Universe[r.Pfx].Bio(), r.Attr.Build(s.rg.Pool))
-		}
+		s.load(c, false)
 		s.out = s.rg.AddOut(c.Sess, chain)
 	}
 	return s
+}
+
+// load feeds the routes that arrive before (late=false) or after (late=true) the policy replacements.
+func (s *system) load(c c12case, late bool) {
+	for _, r := range c.Routes {
+		if r.Late != late {
+			continue
+		}
+		switch {
+		case c.Kind == "import" && r.From == 0:
+			s.in.Table.AddPath(c.Universe[r.Pfx].Bio(), r.Attr.Build(s.rg.Pool))
+		case c.Kind == "import" && r.From == 1:
+			s.other.Table.AddPath(c.Universe[r.Pfx].Bio(), r.Attr.Build(s.rg.Pool))
+		default:
+			s.rg.Loc.AddPath(c.Universe[r.Pfx].Bio(), r.Attr.Build(s.rg.Pool))
+		}
+	}
 }
 
 func (s *system) snap(kind string) *rig.TableSnap {
@@ -225,8 +246,11 @@ func runCase(c c12case) (o outcome) {
 				sa.rg.ReplaceExport(sa.out, ch)
 			}
 		}
+		sa.load(c, true)
 		a = sa.snap(c.Kind)
-		b = build(c, final).snap(c.Kind)
+		sb := build(c, final)
+		sb.load(c, true)
+		b = sb.snap(c.Kind)
 	})
 	if hung {
 		o.viol = append(o.viol, vf.Violation{Clause: "hang", Features: vf.F("side", c.Kind, "addpath", c.Sess.AddPath > 0), Detail: "the replacement never returned; blocked in:\n" + stk, Case: c})
